@@ -151,11 +151,13 @@ def module_encoding(ctx):
     enc = [c for c in walk_func(cmf) if isinstance(c, ast.Call) and isinstance(c.func, ast.Attribute) and c.func.attr == "encode"]
     ctx.require(enc, "_compile_module_file does not encode the source")
     a = src(enc[0].args[0]) if enc[0].args else ""
-    ctx.check(a.startswith("lexer.encoding"), "file-encoding", db.where(enc[0]), "module source encoded with %s" % a, "encoded with lexer.encoding (ascii when none)")
+    lvs = assigned_from(cmf, "_compile(...)#1")
+    ctx.check(any(a == lv_ + ".encoding" or a.startswith(lv_ + ".encoding or ") for lv_ in lvs), "file-encoding", db.where(enc[0]), "module source encoded with %s" % a, "encoded with lexer.encoding (ascii when none)")
     cm = db.func("template._compile")
     kw = {k.arg: src(k.value) for c in calls(cm, "codegen.compile") for k in c.keywords}
-    ctx.check(kw.get("source_encoding") == "lexer.encoding", "compile.source_encoding", db.where(cm), "codegen gets source_encoding=%s" % kw.get("source_encoding"), "source_encoding=lexer.encoding")
-    ctx.check(kw.get("generate_magic_comment") == "generate_magic_comment", "compile.magic-flag", db.where(cm), "generate_magic_comment not forwarded", "flag forwarded")
+    lvs2 = assigned_from(cm, "%s.lexer_cls(...)" % pn(cm, 0))
+    ctx.check(kw.get("source_encoding") in {lv_ + ".encoding" for lv_ in lvs2}, "compile.source_encoding", db.where(cm), "codegen gets source_encoding=%s" % kw.get("source_encoding"), "source_encoding=lexer.encoding")
+    ctx.check(kw.get("generate_magic_comment") == pn(cm, 3), "compile.magic-flag", db.where(cm), "generate_magic_comment not forwarded", "flag forwarded")
     c2 = calls(cmf, "_compile")
     ctx.check(bool(c2) and any(k.arg == "generate_magic_comment" and const(k.value) is True for k in c2[0].keywords), "file.magic-comment", db.where(cmf), "module files are written without the coding comment", "generate_magic_comment=True for files")
     wt = db.func("codegen._GenerateRenderMethod.write_toplevel")
